@@ -1,10 +1,58 @@
 import TempestVerif.Drv.Util
-/- line-protocol handlers of property C05 (stub: no commands yet) -/
+import TempestVerif.Model.Reweight
+/-
+  line-protocol handlers of property C05
+
+    rw.F | rw.Q   mode=<ess|dyn> empty=<0|1> prev=<β> ratio=<ess_ratio> n=<n_particles> vv=<volume_variation | ->
+                  tolE=<ESS_TOLERANCE> tolB=<BETA_TOLERANCE> fuel=<nat>
+                  knots=<k1,…,kK> ess=<e0,…,eK> met=<m0,…,mK>
+      The oracle is the piecewise-constant table  β ↦ (tag β, e_i, m_i)  with  i = #{j : k_j ≤ β}
+      (value e_0 left of the first knot, e_i on [k_i, k_{i+1})).  `Z` is the identity, so the printed
+      `logz` is the β that was handed to `compute_logw_and_logz`.  `np.isfinite` is `Float.isFinite`
+      in regime F and constantly true in regime Q (rationals are finite).
+    →  <beta> <branch> <sub-branches joined by +> <weights tag: U<n> | β the weights were computed for>
+       <ess> <logz> <oracle calls in order> <Z calls in order>
+-/
 namespace Drv.C05
-open Drv
+open Drv Model.Reweight
+
+def table {α : Type} [Sc α] (knots es ms : List α) (b : α) : α × α × α :=
+  let i := (knots.filter (fun k => Sc.le k b)).length
+  (b, es.getD i Sc.zero, ms.getD i Sc.zero)   -- lengths are validated before use: i ≤ knots.length < es.length
+
+def showTag {α : Type} [Codec α] : WTag α → String
+  | .uniform n => s!"U{n}"
+  | .of w => Codec.shw w
+
+def showOut {α : Type} [Codec α] (r : RunOut α α) : String :=
+  let sub := if r.sub.isEmpty then "-" else "+".intercalate (r.sub.map Branch.name)
+  s!"{Codec.shw r.beta} {r.branch.name} {sub} {showTag r.weightsTag} {Codec.shw r.ess} {Codec.shw r.logz} {showList Codec.shw r.calls} {showList Codec.shw r.zcalls}"
+
+def rw (α : Type) [Sc α] [Codec α] (fin : α → Bool) (args : List (String × String)) : String :=
+  let sc := fun k => (getArg args k).bind (Codec.parse (α := α))
+  let scl := fun k => (getArg args k).bind (parseList? (Codec.parse (α := α)))
+  match getArg args "mode", getArg args "empty", sc "prev", sc "ratio", (getArg args "n").bind String.toNat?,
+        sc "tolE", sc "tolB", (getArg args "fuel").bind String.toNat?, scl "knots", scl "ess", scl "met" with
+  | some mode, some empty, some prev, some ratio, some n, some tolE, some tolB, some fuel,
+    some knots, some es, some ms =>
+    if es.length ≠ knots.length + 1 || ms.length ≠ knots.length + 1 then "bad-op" else
+    if empty ≠ "0" && empty ≠ "1" then "bad-op" else
+    let vv? : Option (Option α) :=
+      match mode, getArg args "vv" with
+      | "ess", some "-" => some none
+      | "dyn", some v => (Codec.parse (α := α) v).map some
+      | _, _ => none
+    match vv? with
+    | none => "bad-op"
+    | some vv =>
+      let c : Cfg α := ⟨ratio, n, vv, tolE, tolB, fuel⟩
+      showOut (run c (empty == "1") (table knots es ms) id fin prev)
+  | _, _, _, _, _, _, _, _, _, _, _ => "bad-op"
 
 def handle (cmd : String) (args : List (String × String)) : Option String :=
   match cmd with
+  | "rw.F" => some (rw Float Float.isFinite args)
+  | "rw.Q" => some (rw Rat (fun _ => true) args)
   | _ => none
 
 end Drv.C05
